@@ -20,7 +20,7 @@ SPEC_FUNCS = {"implies", "iff", "old", "forall", "exists", "isdict", "islist", "
               "upow", "fresh_ref", "seq_of", "seqlen", "at_snapshot", "heap_unchanged", "ite", "isjson",
               "isobj", "isnum", "to_real", "is_decimal_str", "str_to_int", "int_to_str", "haskey", "content_eq",
               "istuple", "iscallable", "seq_eq_upto", "strlen", "lower_ascii", "keys_subset", "real",
-              "list_eq", "is_exc", "no_new_keys", "trunc"}
+              "list_eq", "is_exc", "no_new_keys", "trunc", "AP", "RP", "EPT"}
 
 BUILTIN_FUNCS = {
     "len", "isinstance", "int", "str", "float", "bool", "min", "max", "abs", "dict", "list", "tuple", "set",
@@ -66,6 +66,9 @@ def iter_to_seq(ex, st, ctx, it, node):
                     z3.Unit(items[0]) if items else EMPTY_SEQ)
             return ("enumerate", base, start)
         if o[0] == "dictitems":
+            if o[2] == "items":
+                keys = _dict_keys(ex, st, o[1])
+                return ("items", keys, o[1])
             return _dict_iter(ex, st, ctx, o[1], o[2], node)
         if o[0] == "genexp":
             ex.unsupported(st, ctx, "iteration over generator object", node)
@@ -110,6 +113,18 @@ def _range_seq(ex, lo, hi, step):
     ex.assumptions.append(z3.ForAll([i], z3.Implies(z3.And(i >= 0, i < z3.Length(seq)),
                                                     seq[i] == VInt(lo + i * step)), patterns=[seq[i]]))
     return seq
+
+
+def _dict_keys(ex, st, d):
+    b = _B()
+    r = rval(d)
+    keys = fresh("keys", z3.SeqSort(S))
+    i = z3.Const("i!dk", I)
+    dp = b.heap_select(ex, st, st.heap.DP, r)
+    ex.assumptions.append(z3.ForAll([i], z3.Implies(z3.And(i >= 0, i < z3.Length(keys)),
+                                                    z3.Select(dp, keys[i])), patterns=[keys[i]]))
+    ex.assumptions.append(z3.Implies(dp == EMPTY_KP, z3.Length(keys) == 0))
+    return keys
 
 
 def _dict_iter(ex, st, ctx, d, what, node):
@@ -274,6 +289,11 @@ LIST_METHODS = {"append", "extend", "insert", "pop", "index", "copy", "remove", 
 
 
 def call_method(ex, st, ctx, recv, name, args, kwargs, node):
+    b = _B()
+    return b.ref_split(ex, st, ctx, recv, lambda x, o: _call_method(ex, x, ctx, o, name, args, kwargs, node))
+
+
+def _call_method(ex, st, ctx, recv, name, args, kwargs, node):
     b = _B()
     tag = b.static_tag(recv)
     kind = b.ref_kind(ex, recv) if tag == "ref" else None
